@@ -771,7 +771,15 @@ func (m *BGP4MPHeader) serialize() ([]byte, error) {
 	if m.isAS4 {
 		values = []any{m.PeerAS, m.LocalAS, m.InterfaceIndex, m.AddressFamily}
 	} else {
-		values = []any{uint16(m.PeerAS), uint16(m.LocalAS), m.InterfaceIndex, m.AddressFamily}
+		// the 2-octet subtypes cannot hold a 4-octet AS number: AS_TRANS stands in for
+		// it (RFC 6793) instead of its low 16 bits
+		as2 := func(as uint32) uint16 {
+			if as > math.MaxUint16 {
+				return bgp.AS_TRANS
+			}
+			return uint16(as)
+		}
+		values = []any{as2(m.PeerAS), as2(m.LocalAS), m.InterfaceIndex, m.AddressFamily}
 	}
 	buf, err := packValues(values...)
 	if err != nil {
